@@ -143,19 +143,20 @@ class ModuleModel:
         # module-level writes to containers other than the `T.update(OTHER)` form the program model folds
         self.module_sites = {}
 
+        modelled = getattr(self.facts, 'modelled_stmts', set())
+
         def module_effects(body):
             for s in body:
                 if isinstance(s, (ast.FunctionDef, ast.AsyncFunctionDef, ast.ClassDef)):
                     continue
+                if id(s) in modelled:
+                    continue            # a write the program model folded into the table (facts._module_stmt)
                 for n in ast.walk(s):
                     if isinstance(n, (ast.FunctionDef, ast.AsyncFunctionDef, ast.Lambda)):
                         continue
                     if isinstance(n, ast.Call) and isinstance(n.func, ast.Attribute) and isinstance(n.func.value, ast.Name) \
                             and n.func.attr in MUTATORS:
-                        folded = (n.func.attr == 'update' and len(n.args) == 1 and not n.keywords and isinstance(s, ast.Expr)
-                                  and s.value is n and s in tree.body)
-                        if not folded:
-                            self.module_sites.setdefault(n.func.value.id, []).append(n)
+                        self.module_sites.setdefault(n.func.value.id, []).append(n)
                     elif isinstance(n, ast.Subscript) and isinstance(n.ctx, (ast.Store, ast.Del)) and isinstance(n.value, ast.Name):
                         self.module_sites.setdefault(n.value.id, []).append(n)
                     elif isinstance(n, ast.AugAssign) and isinstance(n.target, ast.Name):
